@@ -101,7 +101,7 @@ func buildNetwork(r *rand.Rand, o genOpts) *genNet {
 		e := acmelib.NewSignalEnum(en)
 		nv := r.Intn(4)
 		for j := 0; j < nv; j++ {
-			must(e.AddValue(acmelib.NewSignalEnumValue(sprintf("V%d_%d", i, j), j*pick(r, 1, 2, 3)+j)))
+			must(e.AddValue(acmelib.NewSignalEnumValue(sprintf("V%d_%d", i, j), j*4+r.Intn(4))))
 		}
 		if r.Intn(3) == 0 {
 			must(e.SetMinSize(pick(r, 2, 4)))
